@@ -113,8 +113,17 @@ fn run_history<T: Sc>(spec: &ProblemSpec, hist: &[Vec<f64>], pool: Option<&rayon
 
 fn par_case<T: Sc>(rng: &mut Rng, case: u64, out: &mut CaseOut, pools: &[usize], delay_seeds: usize) {
     let stream = "pools-and-schedules";
-    let (spec, mut hist) = gen_par_spec(rng, 16);
+    let (mut spec, mut hist) = gen_par_spec(rng, 16);
     let np = spec.model.np();
+    // a NaN / infinite observation: both flavours must agree about what exists, and the other columns must agree in value
+    let bad_col: Option<usize> = if rng.chance(0.15) {
+        let (i, j) = (rng.below(spec.y.r), rng.below(spec.y.c));
+        spec.y.set(i, j, *rng.pick(&[f64::NAN, f64::INFINITY, f64::NEG_INFINITY]));
+        out.count("histories_with_a_non_finite_observation");
+        Some(j)
+    } else {
+        None
+    };
     if rng.chance(0.3) {
         // a step into a region where the basis matrix is not finite, followed by a benign one
         let mut bad = hist[0].clone();
@@ -177,6 +186,9 @@ fn par_case<T: Sc>(rng: &mut Rng, case: u64, out: &mut CaseOut, pools: &[usize],
                     };
                     let dn: Vec<f64> = (0..np).map(|k| spec.model.dphi64::<T>(&alpha, k).row_scale(&v.w).fro()).collect();
                     for s in 0..spec.s() {
+                        if Some(s) == bad_col {
+                            continue;
+                        }
                         match close_ratio(&v, yw.col(s), ps, s, ss, s, &dn, T::EPS) {
                             Ok((rc, rr, rj)) if rc <= 1.0 && rr <= 1.0 && rj <= 1.0 => {}
                             other => {
@@ -213,6 +225,10 @@ fn par_case<T: Sc>(rng: &mut Rng, case: u64, out: &mut CaseOut, pools: &[usize],
             b.jac = None;
             if let Some(dd) = bit_diff(&a, &b) {
                 violation(out, stream, case, format!("into_sequential changed the reported state: {dd}"), json!({"problem": spec.to_json()}));
+                return;
+            }
+            if after.jac.is_some() != seq_snaps.last().unwrap().jac.is_some() {
+                violation(out, stream, case, format!("after into_sequential the problem reports a Jacobian: {}, the sequentially built problem at the same parameters: {}", after.jac.is_some(), seq_snaps.last().unwrap().jac.is_some()), json!({"problem": spec.to_json()}));
                 return;
             }
             if after.jac_bits != seq_snaps.last().unwrap().jac_bits {
@@ -323,7 +339,7 @@ pub fn sanitizer_workload(seed: u64, cases: u64, nmax: usize, len: usize) -> (u6
 }
 
 pub fn run(ctx: &Ctx) {
-    ctx.rule("[40 % of the histories end with a Jacobian query during which the derivative of one parameter fails (both flavours must report no Jacobian and keep residuals), followed by a successful one] pools-and-schedules: problems with P = 2..16 nonlinear parameters (hand-written/builder-made multi-exponentials, table models; 1..3 right-hand sides; weights) built through the parallel constructors and run inside explicit rayon pools (quick {1,2,4,16}; thorough 1..16) with seeded spin/yield delays inside eval_partial_deriv; each run is compared with the sequential problem (tolerance; bitwise agreement recorded), with the first parallel run (bitwise: independence of pool size and schedule) and before/after into_sequential (bitwise). Schedule signature of a Jacobian = (column, worker) pairs in completion order from the ModelSpy log. fits: parallel vs sequential fit under random optimizer settings. thorough adds ThreadSanitizer and Miri (many seeds) over the parallel Jacobian workload. distinct = problem hash; all cases non-trivial (P>=2)");
+    ctx.rule("[15 % of the problems carry one NaN/infinite observation: presence of residuals/coefficients/Jacobian must agree between the flavours; 40 % of the histories end with a Jacobian query during which the derivative of one parameter fails (both flavours must report no Jacobian and keep residuals), followed by a successful one] pools-and-schedules: problems with P = 2..16 nonlinear parameters (hand-written/builder-made multi-exponentials, table models; 1..3 right-hand sides; weights) built through the parallel constructors and run inside explicit rayon pools (quick {1,2,4,16}; thorough 1..16) with seeded spin/yield delays inside eval_partial_deriv; each run is compared with the sequential problem (tolerance; bitwise agreement recorded), with the first parallel run (bitwise: independence of pool size and schedule) and before/after into_sequential (bitwise). Schedule signature of a Jacobian = (column, worker) pairs in completion order from the ModelSpy log. fits: parallel vs sequential fit under random optimizer settings. thorough adds ThreadSanitizer and Miri (many seeds) over the parallel Jacobian workload. distinct = problem hash; all cases non-trivial (P>=2)");
     ctx.assume("rayon's scheduler is not controlled: schedule coverage is whatever pool sizes and delay injection produce; the evidence reports the distinct signatures observed");
     let t = ctx.tier;
     let pools_q: Vec<usize> = vec![1, 2, 4, 16];
